@@ -19,8 +19,9 @@ GENS = [
     ("hostile", 3000, 100000, [], []),
     ("v1", 2000, 30000, [], []),
     ("bomb", 8, 16, [], ["--big", "1"]),
-    # machines at the documented size limit (largest that fits / one state more)
-    ("limit", 2, 8, [], []),
+    # machines at the documented size limit: encodings of exactly MAX, MAX-1, MAX-2, MAX-4096
+    # bytes (must round-trip), MAX+1 (serialize panics; model predicts it), largest whole multiple
+    ("limit", 5, 12, [], []),
 ]
 
 
